@@ -146,6 +146,7 @@ type obs struct {
 	SdReverted       int // ... whose frame or an ancestor failed afterwards
 	SdToSelf         int
 	SdRepeat         int // same address destroyed again in the same transaction
+	SdThirdRefunded  int // third or later SELFDESTRUCT of an address that received value after its first one (same transaction)
 	ValueIntoSuicide int // value-bearing CALL to an address that already self-destructed in this transaction
 	Credits          []credit
 	RevertedTouch    map[common.Address]bool
@@ -175,11 +176,19 @@ type tracer struct {
 	topVal     *big.Int
 	topCreate  bool
 	suicidedTx map[common.Address]int
+	refundedTx map[common.Address]bool // got value after self-destructing, this transaction
 }
 
-func newTracer() *tracer { return &tracer{o: newObs(), suicidedTx: map[common.Address]int{}} }
+func newTracer() *tracer {
+	return &tracer{o: newObs(), suicidedTx: map[common.Address]int{}, refundedTx: map[common.Address]bool{}}
+}
 
-func (t *tracer) begin() { t.o = newObs(); t.frames = nil; t.suicidedTx = map[common.Address]int{} }
+func (t *tracer) begin() {
+	t.o = newObs()
+	t.frames = nil
+	t.suicidedTx = map[common.Address]int{}
+	t.refundedTx = map[common.Address]bool{}
+}
 
 func (t *tracer) CaptureStart(from common.Address, to common.Address, call bool, input []byte, gas uint64, value *big.Int) error {
 	if len(t.frames) != 0 {
@@ -187,6 +196,7 @@ func (t *tracer) CaptureStart(from common.Address, to common.Address, call bool,
 	}
 	t.frames = nil
 	t.suicidedTx = map[common.Address]int{}
+	t.refundedTx = map[common.Address]bool{}
 	t.topTo, t.topVal, t.topCreate = to, new(big.Int).Set(value), !call
 	return nil
 }
@@ -342,6 +352,9 @@ func (t *tracer) step(env *vm.EVM, op vm.OpCode, stack *vm.Stack, contract *vm.C
 		if t.suicidedTx[self] > 0 {
 			t.o.SdRepeat++
 		}
+		if t.suicidedTx[self] >= 2 && t.refundedTx[self] {
+			t.o.SdThirdRefunded++
+		}
 		t.suicidedTx[self]++
 	case vm.CALL, vm.CALLCODE:
 		to := common.BigToAddress(stack.Back(1))
@@ -357,6 +370,7 @@ func (t *tracer) step(env *vm.EVM, op vm.OpCode, stack *vm.Stack, contract *vm.C
 				}
 				if op == vm.CALL && t.suicidedTx[to] > 0 {
 					t.o.ValueIntoSuicide++
+					t.refundedTx[to] = true
 				}
 				if op == vm.CALL && isPrecompileAddr(to) {
 					t.o.PrecompileValue++
